@@ -283,13 +283,17 @@ static void oracle_c02_block(const std::string& type, const VerCfg& vc, const Sc
 // survivors is then not required to be the order a sort after pruning would give; only repeatability is demanded there.
 // all_options = false (thorough tier, synthesised single-block files): of the histories that use a one-sided option set
 // only OO, SS and OS run; pruning and sorting have nothing to distinguish on a two-block file
-static void c02_file_checks(const std::string& F, const std::string& keybase, const std::string& what, J cj, Stats& st, bool all_options = true) {
+// edit (optional): an API edit applied to every freshly loaded object - the model under test and its twins alike -
+// before the history starts ("saving a loaded OR EDITED model ...")
+static void c02_file_checks(const std::string& F, const std::string& keybase, const std::string& what, J cj, Stats& st, bool all_options = true,
+							const std::function<void(NifFile&)>& edit = nullptr) {
 	canon::Canon refs[2][2];
 	bool have[2][2] = {{false, false}, {false, false}};
 	auto ref_for = [&](bool p, bool t) -> const canon::Canon* {
 		if (!have[p][t]) {
 			NifFile twin;
 			if (s1::load(twin, F) != 0) return nullptr;
+			if (edit) edit(twin);
 			refs[p][t] = canon::canonical(canon::save_with(twin, p, t));
 			have[p][t] = true;
 		}
@@ -313,6 +317,7 @@ static void c02_file_checks(const std::string& F, const std::string& keybase, co
 		if (!all_options && h != "OO" && h != "SS" && h != "OS" && (h.find('O') != std::string::npos || h.find('S') != std::string::npos)) continue;
 		NifFile x;
 		if (s1::load(x, F) != 0) return;
+		if (edit) edit(x);
 		st.add("histories");
 		std::string base_full = bat::model_text(x, full), base_free = bat::model_text(x, freeo);
 		bool P = false, T = false, sortedBeforePruned = false;
@@ -724,6 +729,21 @@ static void run_rfile(const std::string& rel, Stats& st) {
 	if (A.prop == "C01") c01_file_checks(F, keybase, rel, cj, st);
 	else if (A.prop == "C02") {
 		c02_file_checks(F0, keybase, rel, cj, st);
+		// the same histories on an EDITED model: every shape gets vertex colours through the API (on a skinned SSE shape the
+		// vertex format of the shape then differs from the one its skin partition still carries, until a save carries it over)
+		auto colours = [](NifFile& n) {
+			for (auto sh : n.GetShapes()) {
+				uint16_t nv = sh->GetNumVertices();
+				if (nv == 0) continue;
+				std::vector<Color4> c;
+				for (uint16_t i = 0; i < nv; i++) c.push_back(Color4(0.25f * (float) (i % 4), 0.5f, 1.0f - 0.125f * (float) (i % 8), 0.75f));
+				n.SetColorsForShape(sh, c);
+			}
+		};
+		if (F0.size() <= (size_t) 400000) {
+			st.add("edited_sample_files");
+			c02_file_checks(F0, keybase + ":edited-colours", rel + " with vertex colours set on every shape", J(cj).set("edit", "SetColorsForShape"), st, true, colours);
+		}
 	}
 	else if (A.prop == "C07") {
 		st.add("files_checked");
